@@ -23,8 +23,8 @@ for i,(a,b) in enumerate(zip(d,h)):
     if src[i].startswith("case "): case=i
     if a!=b:
         print(f"--- line {i+1}: {src[i]}   (case at {case+1}: {src[case]})")
-        print("  driver : "+a)
-        print("  harness: "+b)
+        print("  driver : "+a[:300])
+        print("  harness: "+b[:300])
         shown+=1
         if shown>=8: break
 if len(d)!=len(h): print(f"line counts differ: driver {len(d)} harness {len(h)}")
